@@ -37,7 +37,7 @@ PROPERTY FalseNegOnlyRemoves
 PROPERTY FalsePosOnlyAdds
 PROPERTY ShiftKeepsCount
 """
-FX = 10000
+FX = 1000000          # 1e-6 time units (times stay below ~200)
 LABELS = ["Noun", "Verb", "adj", "prep"]
 
 
@@ -131,6 +131,18 @@ def build(pa, rng, count, rep):
                     continue
             before = snapshot(corpus, annrank, catrank)
             anns_before = [annrank[a] for a in corpus.annotators]
+            # probe (observation only): how often add() refused a piece during this perturbation - the split's
+            # zero-length fallback is a named branch of the spec, not judged as a split
+            refused = []
+            orig_add = pa.Continuum.add
+
+            def probing_add(self_c, annotator, segment, annotation=None):
+                try:
+                    return orig_add(self_c, annotator, segment, annotation)
+                except ValueError:
+                    refused.append(annotator)
+                    raise
+            pa.Continuum.add = probing_add
             try:
                 if op == "cat_shuffle_prevalence":
                     cst.category_shuffle(corpus, prevalence=True)
@@ -140,15 +152,20 @@ def build(pa, rng, count, rep):
                     {"shift": cst.shift_shuffle, "false_pos": cst.false_pos_shuffle, "false_neg": cst.false_neg_shuffle,
                      "cat_shuffle": cst.category_shuffle, "split": cst.splits_shuffle}[op](corpus)
             except Exception as ex:
+                pa.Continuum.add = orig_add
                 rep.violation("cst.raises", dict(meta, op=op, exception=repr(ex)))
                 continue
+            finally:
+                pa.Continuum.add = orig_add
             after = snapshot(corpus, annrank, catrank)
             meta["op_variant"] = op
+            meta["add_refusals"] = len(refused)
             op = "cat_shuffle" if op.startswith("cat_shuffle") else op
             rec = dict(base, op=op, before=before, after=after, anns_before=anns_before, anns_after=[annrank[a] for a in corpus.annotators],
                        expected_anns=anns_before, magzero=1 if (mag == 0.0) else 0)
             if op == "split":
                 rec["nsplits"] = int(mag * cst.SPLIT_FACTOR * ref.avg_num_annotations_per_annotator)
+                rec["fallbacks"] = len(refused)
             meta["op"] = op
         else:
             flags = flag_sets[(it // 2) % len(flag_sets)]
